@@ -351,6 +351,8 @@ def run_property(mod, tier: str, seed: int, only_subs: Optional[List[str]] = Non
                 a['evaluations'] += 1
                 if v.known:
                     a['known'][v.known] += 1
+                    a['known_examples'].setdefault(v.known, {'case': data['case'], 'detail': v.detail,
+                                                             'replay': os.path.join(reg_dir, fn)})
                 elif not v.ok and not v.inconclusive:
                     violations.append((os.path.join(reg_dir, fn), sub.name, 'regression:' + v.bucket, v.detail))
 
